@@ -135,7 +135,7 @@ class C03(Prop):
             return [Mismatch(stream="c03.doc", case=case, impl=f, model=outs[0][:200])]
         if status != "OK":
             return [Mismatch(stream="c03.doc", case=case, impl="%d shapes" % len(f), model=outs[0][:200])]
-        d = shapes_diff(f, shapes)
+        d = shapes_diff(f, shapes, path_data=True)
         if d:
             return [Mismatch(stream="c03.doc", case=case, impl=d, model="see impl: first difference")]
         return []
@@ -182,7 +182,7 @@ class C03(Prop):
         return None
 
 
-def shapes_diff(obs, want):
+def shapes_diff(obs, want, path_data=False):
     """first difference in count / order / kind / id / absolute geometry, or None"""
     if len(obs) != len(want):
         return "%d shapes rendered, expected %d (%s vs %s)" % (len(obs), len(want), [s["kind"] for s in obs][:12],
@@ -196,6 +196,10 @@ def shapes_diff(obs, want):
         d = dg.geom_diff(o["abs"], w, TOL)
         if d:
             return "shape %d (%s%s): %s" % (i, o["kind"], " id=%s" % o["id"] if o["id"] else "", d)
+        if path_data and o["kind"] == "path":
+            d = dg.path_data_diff(o, w)
+            if d:
+                return "shape %d (path%s): stored segments differ from the parse of its d attribute: %s" % (i, " id=%s" % o["id"] if o["id"] else "", d)
     return None
 
 
